@@ -447,6 +447,12 @@ def search_failing_input(ctx, broken):
             sk.append(dict(base, method='shuffle', nterm=False, cterm=False, seed=seed, order='target_first',
                            orders=[ts, list(reversed(ts))]))
     cases = sk + load_corpus() + [gen_case(ctx.rng, R.rule_names(), i) for i in range(200)]
+    from harness.lib import py2coq_search
+    if py2coq_search.is_code_obligation(broken):
+        # code_<fn>_is_model (docs/py2coq.md): the unit streams call exactly the translated functions
+        import random
+        urng = random.Random(ctx.seed + 11)
+        cases = [gen_unit(urng, R.rule_names(), i) for i in range(600)] + cases
     impl, viol, stats = evaluate(ctx, cases)
     for v in viol:
         if not v.get('finding') and not v.get('no_input'):
